@@ -304,6 +304,10 @@ func runC06(c *core.Ctx, res *core.Result) {
 		c06IOFault(c, res)
 		return
 	}
+	if c.Idx%45 == 14 {
+		c06RotationRace(c, res)
+		return
+	}
 	r := c.Rand
 	cfg := kv.Cfg{MemTableSize: []int64{1, 64, 300, 1024, 4096}[r.Intn(5)], MaxMemTables: r.Range(1, 4), SyncMode: []int{0, 0, 1, 2}[r.Intn(4)], CompactSecs: 1}
 	dir := filepath.Join(c.Dir, "db")
